@@ -347,18 +347,17 @@ fn probe_isolated(prop: &'static str, seed: u64, hang_budget: Duration) -> Optio
             }
             continue;
         }
-        let once = hexpat.starts_with("once:");
-        let pat = crate::desc::unhex(hexpat.trim_start_matches("once:")).unwrap_or_default();
-        let sc = engine::probe_scenario(p, &pat, once);
+        let (pre, pat, once) = engine::Pattern::parse_text(&hexpat);
+        let sc = engine::probe_scenario(p, &pre, &pat, once);
         if let Some(v) = exec_isolated(prop, &sc, hang_budget).into_iter().next() {
             let mut sc = sc;
-            sc.faults.push(crate::desc::Fault { kind: "stuck", at: 0, detail: format!("pattern probe #{}: periodic script {:02x?}, 800 opcodes", i, pat) });
+            sc.faults.push(crate::desc::Fault { kind: "stuck", at: 0, detail: format!("pattern probe #{}: periodic script {:02x?} (prefix {:02x?}), 800 opcodes", i, pat, pre) });
             return Some(Found { index: i, scenario: sc, violation: v });
         }
     }
     Some(Found {
         index: 0,
-        scenario: engine::probe_scenario(0, &[], false),
+        scenario: engine::probe_scenario(0, &[], &[], false),
         violation: Violation::new(prop, "process-death(probing child)", "the isolated pattern-probing child died or hung but no single probe reproduced it alone"),
     })
 }
